@@ -334,7 +334,9 @@ def run_shard(shard, tier, seed):
             lists.append(tuple(reversed(valid)))
             # requests the driver cannot even build (unknown tag, unknown element, malformed count) in front of, between and behind
             # the good ones: the good ones must still get their own values
-            for bad in ("no_such_tag", "no_such_tag[3]", alpha[0].split("{")[0] + "{x}"):
+            arr = next((tg for tg in proj.user_tags() if len(tg.dims) == 1 and isinstance(tg.typ, str) and tg.typ not in ("DWORD", "BOOL") and not tg.scope), None)
+            refused = [f"{arr.name}[{arr.dims[0]}]", f"{arr.name}{{{arr.dims[0] + 1}}}"] if arr is not None else []  # well-formed, refused by the controller (beyond the end)
+            for bad in ["no_such_tag", "no_such_tag[3]", alpha[0].split("{")[0] + "{x}"] + refused:
                 mid = len(alpha) // 2
                 lists += [(bad,) + tuple(alpha), tuple(alpha[:mid]) + (bad,) + tuple(alpha[mid:]), tuple(alpha) + (bad,), (bad, alpha[0], bad, alpha[-1])]
             for lst in lists:
